@@ -1,10 +1,11 @@
 \* LspSession: simulated behaviours for the replay on a real proxy.Server
 CONSTANTS
+  Docs = {"hello", "other"}
   Texts = {"t1", "t2", "t3"}
   OpenRule = "replace"
   HistLen = 14
 INIT Init
 NEXT Next
 
-INVARIANTS ServerTracksEditor NoCopyWhenClosed PrintHist
+INVARIANTS ServerTracksEditor PrintHist
 CHECK_DEADLOCK FALSE
